@@ -1,6 +1,7 @@
 package rules
 
 import (
+	"go/token"
 	"go/ast"
 	"go/types"
 	"sort"
@@ -17,6 +18,7 @@ const pkgBucket = "app/core/hydra/swamp/bucket"
 var guardedTables = []core.GuardSpec{
 	{Pkg: pkgBeacon, Type: "beacon", Fields: []string{"treasuresByKeys", "treasuresByOrder", "isOrdered", "sortOrder"}, Locks: []string{"mu"}, ReadsNeedLock: true},
 	{Pkg: pkgBucket, Type: "bucket", Fields: []string{"byValue", "byKey"}, Locks: []string{"mu"}, ReadsNeedLock: true},
+	{Pkg: pkgBucket, Type: "bucket", Fields: []string{"pending"}, Locks: []string{"pendingMu"}, ReadsNeedLock: true},
 	{Pkg: pkgSwamp, Type: "swamp", Fields: []string{"buckets"}, Locks: []string{"bucketsMu"}, ReadsNeedLock: true},
 	{Pkg: pkgLock, Type: "queue", Fields: []string{"callers"}, Locks: []string{"mu"}, ReadsNeedLock: true},
 	{Pkg: pkgGuard, Type: "guard", Fields: []string{"waitForUnlock", "bodyAuthID"}, Locks: []string{"mu", "cond.L"}, ReadsNeedLock: true},
@@ -31,6 +33,138 @@ func c10(c *core.Ctx) {
 	rL := c.Rule("C10.lockset", "a lock-covered field is read or written only while the covering mutex is held (write lock for writes)", 150)
 	for _, spec := range guardedTables {
 		core.ReportGuarded(c, rL, core.CheckGuarded(p, spec))
+	}
+
+	// C10.detach: a covered slice that is taken out of its critical section is taken out whole.
+	rDt := c.Rule("C10.detach", "when a function copies the header of a lock-covered slice into a local, releases the covering lock and goes on using the local, the field has been detached before the release - assigned nil or a freshly made slice - or the local is a real copy: re-slicing the field to length 0 (or leaving it as it is) keeps the backing array shared, and the next append under the lock writes into the elements the function is still reading without it", 1)
+	{
+		n := 0
+		for _, spec := range guardedTables {
+			named, st := p.StructOf(spec.Pkg, spec.Type)
+			fm := core.StructFields(st)
+			covered := map[*types.Var]bool{}
+			for _, fn := range spec.Fields {
+				if f := fm[fn]; f != nil {
+					if _, isSl := f.Type().Underlying().(*types.Slice); isSl {
+						covered[f] = true
+					}
+				}
+			}
+			if len(covered) == 0 {
+				continue
+			}
+			for _, f := range p.FuncsIn(spec.Pkg) {
+				if f.Decl.Body == nil {
+					continue
+				}
+				info := f.Info()
+				for _, body := range core.Bodies(f.Decl) {
+					var fl *core.Flow
+					ast.Inspect(body, func(x ast.Node) bool {
+						if lit, isLit := x.(*ast.FuncLit); isLit && lit.Body != body {
+							return false
+						}
+						as, ok := x.(*ast.AssignStmt)
+						if !ok || len(as.Lhs) != len(as.Rhs) {
+							return true
+						}
+						for i, r := range as.Rhs {
+							sel, isSel := core.Unparen(r).(*ast.SelectorExpr)
+							if !isSel {
+								continue
+							}
+							fld := core.FieldOf(info, sel)
+							if fld == nil || !covered[fld] || namedOf(info.TypeOf(sel.X)) != named {
+								continue
+							}
+							local := core.ObjOf(info, as.Lhs[i])
+							if local == nil {
+								continue
+							}
+							if _, isVar := local.(*types.Var); !isVar || local.(*types.Var).IsField() {
+								continue
+							}
+							if fl == nil {
+								fl = core.NewFlow(p, info, body)
+							}
+							la, okA := fl.Locate(as)
+							if !okA {
+								continue
+							}
+							recv := core.ExprStr(sel.X)
+							// releases of a covering lock that follow the alias and precede a use of the local
+							var badU *ast.CallExpr
+							core.Calls(body, false, func(u *ast.CallExpr) {
+								fo := core.Callee(info, u)
+								if fo == nil || (fo.Name() != "Unlock" && fo.Name() != "RUnlock") || underDefer(body, u) {
+									return
+								}
+								isCover := false
+								for _, lkName := range spec.Locks {
+									if core.ExprStr(core.RecvExpr(u)) == recv+"."+lkName {
+										isCover = true
+									}
+								}
+								if !isCover {
+									return
+								}
+								lu, okU := fl.Locate(u)
+								if !okU {
+									return
+								}
+								if r1, _ := fl.CanReach(la, nil, nil, core.ContainsNode(u)); !r1 {
+									return
+								}
+								usedAfter, _ := fl.CanReach(lu, nil, nil, func(nd ast.Node) bool {
+									return nd != ast.Node(as) && core.Mentions(info, nd, local)
+								})
+								if !usedAfter {
+									return
+								}
+								// detached in between: the field is assigned nil / make / a literal on every path alias -> unlock
+								detach := func(nd ast.Node) bool {
+									a2, isA := nd.(*ast.AssignStmt)
+									if !isA || len(a2.Lhs) != len(a2.Rhs) {
+										return false
+									}
+									for j, l := range a2.Lhs {
+										if core.FieldOf(info, l) != fld {
+											continue
+										}
+										rhs := core.Unparen(a2.Rhs[j])
+										if core.IsNilIdent(info, rhs) {
+											return true
+										}
+										if call, isCall := rhs.(*ast.CallExpr); isCall && isBuiltinCall(info, call, "make") {
+											return true
+										}
+										if _, isLit := rhs.(*ast.CompositeLit); isLit {
+											return true
+										}
+									}
+									return false
+								}
+								if leak, _ := fl.CanReach(la, nil, detach, core.ContainsNode(u)); leak && badU == nil {
+									badU = u
+								}
+							})
+							n++
+							c.Touch(f)
+							construct := f.Key + ":" + local.Name() + ":=" + core.ExprStr(sel)
+							if badU != nil {
+								rDt.Bad(construct, badU.Pos(), "the local "+local.Name()+" shares the backing array of "+core.ExprStr(sel)+" and is still used after this release of the covering lock, but the field was not detached (set to nil or a fresh slice) first: appends made under the lock overwrite elements this function reads without it")
+							} else {
+								rDt.Ok(construct, as.Pos(), "not used after the lock is released, or the field is detached first")
+							}
+						}
+						return true
+					})
+				}
+			}
+		}
+		if n == 0 {
+			rDt.Ok("guarded-tables:no-slice-aliases", token.NoPos, "no function copies the header of a covered slice into a local")
+		}
 	}
 
 	rE := c.Rule("C10.escape", "no function returns a lock-covered map or slice field by reference, and none passes it to a callback or stores it into a result", 6)
